@@ -59,3 +59,46 @@ def owners(unit, fn, arm, kind=None):
                     if p not in out:
                         out.append(p)
     return out
+
+
+# ---- the five parsers (units <stack>-parser) ---------------------------------------------------------
+VAL = ['post', 'invariant', 'assert', 'precond']      # a failed callee precondition inside a parser method = wrong call shape
+P = '*-parser'
+rule(P, 'get_oper_prec', '*', VAL, ['C04'])
+rule(P, 'generate_ast', '*', VAL, ['C04', 'C03', 'C20'])
+rule(P, 'parse', '*', VAL, ['C03', 'C12'])
+rule(P, 'check_paren', '*', VAL, ['C03', 'C04'])
+rule(P, 'function_static_arguments', '*', VAL, ['C03', 'C10'])
+rule(P, 'function_arguments', '*', VAL, ['C03', 'C11'])
+rule(P, 'find_item_list', '*', VAL, ['C03', 'C11'])
+rule(P, 'implicit_multiply', '*', VAL, ['C12'])
+rule(P, 'get_enclosed_elements_with_impl_mult_*', '*', VAL, ['C04', 'C12', 'C13', 'C20'])
+rule(P, 'new', '*', VAL, ['C14', 'C03'])
+rule(P, 'get_next_token', '*', VAL, ['C03'])
+rule(P, 'parse_number', 'Ans', VAL, ['C14', 'C20'])
+rule(P, 'parse_number', 'ExplicitFunction', VAL, ['C10', 'C12'])
+rule(P, 'parse_number', 'ExplicitFunction/*', VAL, ['C10'])
+for f in ('Min', 'Max', 'Avg', 'Med', 'Gcd', 'Lcm'):
+    rule(P, 'parse_number', 'ExplicitFunction/' + f, VAL, ['C11'])
+for f in ('Mod', 'Pow'):
+    rule(P, 'parse_number', 'ExplicitFunction/' + f, VAL, ['C13'])      # mod(a,b) / pow(a,b) build the nodes of % and ^
+rule(P, 'parse_number', 'Subtract', VAL, ['C04'])
+rule(P, 'parse_number', 'Add', VAL, ['C04', 'C13'])
+rule(P, 'parse_number', 'Num', VAL, ['C12', 'C19'])
+rule(P, 'parse_number', 'Pi', VAL, ['C10', 'C12'])
+rule(P, 'parse_number', 'E', VAL, ['C10', 'C12'])
+rule(P, 'parse_number', 'LeftParen', VAL, ['C04', 'C13', 'C20'])
+rule(P, 'parse_number', 'LeftFloor', VAL, ['C04', 'C13'])
+rule(P, 'parse_number', 'LeftCeiling', VAL, ['C04', 'C13'])
+rule(P, 'parse_number', 'default', VAL, ['C03'])
+rule(P, 'parse_number', '-', VAL, ['C03'])
+for t in ('Ampersand', 'Bar', 'LeftShift', 'RightShift', 'Add', 'Subtract', 'Multiply', 'Divide', 'Caret', 'Modulo'):
+    rule(P, 'convert_token_to_node', t, VAL, ['C04'])
+rule(P, 'convert_token_to_node', 'ExclamationMark', VAL, ['C04', 'C12', 'C10'])
+rule(P, 'convert_token_to_node', 'Superscript', VAL, ['C13', 'C04'])
+rule(P, 'convert_token_to_node', 'DegToRad', VAL, ['C10', 'C04'])
+rule(P, 'convert_token_to_node', 'RadToDeg', VAL, ['C10', 'C04'])
+rule(P, 'convert_token_to_node', 'default', VAL, ['C03'])
+rule(P, 'convert_token_to_node', '-', VAL, ['C03'])
+rule(P, '*', '*', ['overflow', 'divzero', 'shift', 'index'], ['C01'])
+rule(P, '*', '*', ['decreases'], ['C02'])
